@@ -23,7 +23,7 @@ tvars == <<pkg, cmd, phase, pending, log, failures, verdict, exit, entryRuns, l>
 Ev == Rec[l]
 IsEv(name) == l <= Len(Rec) /\ Ev.op = name /\ l' = l + 1
 
-EmptyPkg == [mods |-> <<Root>>, tests |-> <<>>, funcs |-> <<>>, broken |-> "none"]
+EmptyPkg == [mods |-> <<Root>>, tests |-> <<>>, funcs |-> <<>>, broken |-> "none", fnpos |-> "mixed"]
 ApiCmd   == [kind |-> "api", explicit |-> FALSE, fn |-> MAIN]
 
 TraceInit == l = 1 /\ Init(EmptyPkg, ApiCmd)
